@@ -170,17 +170,17 @@ def type_text(t):
   return t[1]
 
 
-def emit_stmts(stmts, ind, kind, out):
-  op = "@=" if kind == "comb" else "<<="
+def emit_stmts(stmts, ind, kind, out, op=None):
+  op = op or ("@=" if kind == "comb" else "<<=")
   for st in stmts:
     if st[0] == "=":
       out.append(" " * ind + f"{ref_text(st[1])} {op} {expr_text(st[2])}")
     else:
       out.append(" " * ind + f"if {expr_text(st[1])}:")
-      emit_stmts(st[2], ind + 2, kind, out)
+      emit_stmts(st[2], ind + 2, kind, out, op)
       if st[3]:
         out.append(" " * ind + "else:")
-        emit_stmts(st[3], ind + 2, kind, out)
+        emit_stmts(st[3], ind + 2, kind, out, op)
 
 
 def emit_connect(dst, src, style):
@@ -192,7 +192,7 @@ def emit_connect(dst, src, style):
   return f"connect({sv}, {d})" if "const" not in src else f"connect({d}, {sv})"
 
 
-def emit(design, connect_order=None, connect_style=None):
+def emit(design, connect_order=None, connect_style=None, block_order=None):
   """-> python source.  connect_order[cname] = permutation of connect indices; connect_style[cname][i] in 0..3"""
   L = ["from pymtl3 import *", ""]
   for tn, fields in design["types"].items():
@@ -213,11 +213,14 @@ def emit(design, connect_order=None, connect_style=None):
       dst, src = c["connects"][i]
       style = connect_style[cn][i] if connect_style and cn in connect_style else 0
       L.append("    " + emit_connect(dst, src, style))
-    for b in c["blocks"]:
+    blks = list(c["blocks"])
+    if block_order and cn in block_order:
+      blks = [blks[i] for i in block_order[cn]]
+    for b in blks:
       L.append("    @update" if b["kind"] == "comb" else "    @update_ff")
       L.append(f"    def {b['name']}():")
       body = []
-      emit_stmts(b["stmts"], 6, b["kind"], body)
+      emit_stmts(b["stmts"], 6, b["kind"], body, b.get("op"))
       L += body or ["      pass"]
     if not c["signals"] and not c["children"]:
       L.append("    pass")
